@@ -34,6 +34,7 @@ import (
 	sutils "github.com/siglens/siglens/pkg/segment/utils"
 	"github.com/siglens/siglens/pkg/segment/writer"
 	"github.com/siglens/siglens/pkg/utils"
+	"github.com/siglens/siglens/pkg/verifhook"
 	log "github.com/sirupsen/logrus"
 )
 
@@ -202,6 +203,7 @@ func readUserDefinedColForRRCs(segKey string, rrcs []*sutils.RecordResultContain
 	// todo we should not be reading blockSummary here, let the segreader read it
 	var blockSummary []*structs.BlockSummary
 	if writer.IsSegKeyUnrotated(segKey) {
+		verifhook.At("fetch.unrotated.checked", "qid", qid, "segkey", segKey)
 
 		blockSummary, err = writer.GetBlockSummaryForKey(segKey)
 		if err != nil {
